@@ -8,6 +8,40 @@ PY = '/venv/bin/python'
 
 # id -> (design_ref, technique, level text, level note)
 CHECKS = {
+    'C03': ('DESIGN.md 4/C03', 'exhaustive enumeration of selection pairs x port sets per side, each run through '
+            'PortsSemanticsCfg.match and end-to-end through Builder.build, judged by a reference resolver',
+            'Every (sts, mts) pair of selections over 3 (quick) / 4 (thorough) own names + unknown + other-side + injected '
+            'name against every subset of real ports, single-side and end-to-end (paired with fixed representatives of '
+            'the other side; thorough also crosses one representative per verdict class); exhaustive inside the bound.',
+            'Trusted: vf/refmodels/portcfg.py (three-valued). Semantics of accepted builds read from accessor types in the '
+            'generated header; compiled confirmation is C02.'),
+    'C05': ('DESIGN.md 4/C05', 'explicit-state enumeration of all document shapes up to a node bound, parsed by the real '
+            'DznJsonAst, compared with an independent expected-declaration printer',
+            'All documents of <=4 (quick) / <=5 (thorough) nodes over 11 leaf kinds and 3 namespace names x 2 naming '
+            'sweeps plus the per-kind payload space; exhaustive inside the bound.',
+            'Trusted: vf/docgen.py (three independent printers). Documents are well-formed; malformed ones are C15.'),
+    'C13': ('DESIGN.md 4/C13', 'deviation-bounded enumeration of model/configuration points x single-fault catalogue, each '
+            'built by the real Builder under an alarm watchdog, judged by reference validity rules',
+            'Every point within 2 (quick) / 3 (thorough) deviations of the base point must build to the exact 8-file set; '
+            'every applicable single fault must fail with a dznpy error type; exhaustive inside the bound.',
+            'Trusted: modelgen.Facts (reference lookup), refmodels/portcfg.py, the multi-client validity rules in c13.py.'),
+    'C14': ('DESIGN.md 4/C14', 'exhaustive enumeration of declaration sets x searched names x calling scopes over a '
+            '3-identifier alphabet on the real find_fqn/find_any/scope_resolution_order, judged by set comprehensions',
+            'Full declaration set + all sets of <=1 (quick) / <=2 (thorough) declarations x 39 names x 41 scopes; all strings '
+            'of length <=3/4 over a 10-symbol alphabet through namespaceids_t; all id lists <=3 through every notation and '
+            'operator; exhaustive inside the bound.',
+            'Trusted: the comprehensions in vf/checks/c14.py. Searched names have >=1 identifier.'),
+    'C15': ('DESIGN.md 4/C15', 'exhaustive single-fault (thorough: pair-fault) enumeration at every JSON node of seed '
+            'documents, parsed by the real DznJsonAst; oracle = exception class',
+            'All single faults (delete / retype to 11 values / retag to 30 tags / invalid identifiers / list surgery) at '
+            'every node of the large document and all 1-node documents (thorough: 2-node documents and all fault pairs on '
+            '1-node documents); all out-event signatures; exhaustive inside the bound.',
+            'Input is valid JSON. Trusted: the fault operators in vf/checks/c15.py.'),
+    'C16': ('DESIGN.md 4/C16', 'explicit-state exploration of all operation histories (new/load/process on 2-3 parser '
+            'slots, 3 documents) replayed on fresh objects; un-pruned sweep + BFS pruned on a canonical state',
+            'All histories to depth 4 un-pruned (2 slots quick / 3 slots thorough) and pruned BFS to depth 5/7; every '
+            'process() result compared with the expected declarations, earlier results re-checked after every operation.',
+            'Trusted: vf/docgen.py. Pruning argument in the evidence assumptions; cross-checked by the un-pruned sweep.'),
     'C17': ('DESIGN.md 4/C17', 'explicit-state enumeration of all content trees/strings up to a bound, '
             'each executed on the real TextBlock, judged by an independent reference flattener',
             'Every string of <=3 symbols over an alphabet containing all 11 Python line-break sequences and every '
